@@ -352,6 +352,19 @@ pub fn check_item<T: Item>(name: &str, x: &T, out: &mut Outputs) {
                 continue;
             }
             seen.push((*class, *tag));
+            // specific signatures of the recorded findings (anything else keeps the generic class)
+            let full = format!("{:?}", x);
+            let class: &str = if *class == "c03-typed-roundtrip" && *tag == "roundtrip" && name == "Message" && full.contains("body: Empty") {
+                "c03-typed-roundtrip-message-body-empty"
+            } else if *class == "c20-value-tree" && *tag == "value-tree" && what.contains("to_value = Described") && what.contains("InvalidValue") {
+                "c20-value-tree-from-value-described"
+            } else if *class == "c20-value-tree-bytes" && name == "Message" {
+                "c20-value-tree-bytes-message-sections"
+            } else if *class == "c20-value-tree" && *tag == "value-tree" && name == "Message" {
+                "c20-value-tree-bytes-message-sections"
+            } else {
+                class
+            };
             out.count(&format!("viol_{class}"));
             out.violation(class, &format!("{class}: {name} {dbg} -> {h}: {what}"), &line);
         }
